@@ -296,7 +296,7 @@ inline Result run_shards(const Args& a, int n, const std::function<Result(int)>&
 // /verif/known_findings.txt: lines "finding: property=<id> key=<key> <text>" and "fixed: property=<id> <commit> <text>".
 inline std::map<std::string, std::string> known_findings(const std::string& prop) {
 	std::map<std::string, std::string> m;
-	std::ifstream f(verif_dir() + "/known_findings.txt"); std::string line;
+	const char* home = getenv("VERIF_HOME"); std::ifstream f(std::string(home ? home : verif_dir().c_str()) + "/known_findings.txt"); std::string line;
 	while (std::getline(f, line)) {
 		if (line.rfind("finding:", 0) != 0) continue;
 		std::istringstream ss(line.substr(8)); std::string tok, p, k, rest;
